@@ -200,7 +200,7 @@ func checkTTSearchWant(c *fw.Ctx, s search.Search, h gen.Hist, depth int, tt *re
 			c.Violate("tt:score", "with the table the root score is %v, without it %v: %s", score, want, what)
 			return pv, false
 		}
-		if len(pv) == 0 && !moveless {
+		if len(pv) == 0 && !moveless && depth > 0 { // (a depth-0 search evaluates the root and has no move to report)
 			c.Violate("tt:pv-empty", "empty PV with the table although the root has legal moves: %s", what)
 			return pv, false
 		}
